@@ -2,6 +2,7 @@ From Coq Require Import ZArith NArith List Bool.
 From PSO Require Import Raft.Types Raft.Node Raft.Net Raft.Obs.
 From PSO Require Import Raft.ProofsReadonlyFrames Raft.ProofsReadonlyB Raft.ProofsReadonlyFinal.
 From PSO Require Import Raft.ProofsFallbackA Raft.ProofsFallbackB Raft.ProofsFallbackC Raft.ProofsFallbackFinal.
+From PSO Require Import Raft.ProofsFallbackSlotsGlobal.
 Import ListNotations.
 Open Scope N_scope.
 
@@ -71,6 +72,22 @@ Theorem C20_bound_reachable : forall c g0 L n0 t0 evs1 now rnd bud ord sl evs2 g
   exists n, aget L (nodes g) = Some n /\ role n <> LEADER.
 Proof. exact C20_bound_reachable_final. Qed.
 Print Assumptions C20_bound_reachable.
+
+(* the bound with no hypothesis on the leader's state left except "it is leader, has a peer, and t0 bounds
+   its last-response times": slot presence, need_load = false and "members are voters" are invariants of
+   every state reachable by inputs that name voters by ids < RO_BASE and restart nodes with sorted member
+   lists (slot_valid); static and dynamic membership alike *)
+Theorem C20_bound_reachable_full : forall c evs0 g0 L n0 t0 evs1 now rnd bud ord sl evs2 g,
+  (0 <= period c)%Z ->
+  Forall slot_valid evs0 -> run_trace c ginit evs0 = Some g0 ->
+  aget L (nodes g0) = Some n0 -> role n0 = LEADER -> others n0 <> [] ->
+  (forall x v, In x (others n0) -> aget x (last_resp n0) = Some v -> (v <= t0)%Z) ->
+  (t0 + fallback c < now)%Z ->
+  steps_sat (cut_quiet L) c g0 (evs1 ++ ETick L now rnd bud ord sl :: evs2) ->
+  run_trace c g0 (evs1 ++ ETick L now rnd bud ord sl :: evs2) = Some g ->
+  exists n, aget L (nodes g) = Some n /\ role n <> LEADER.
+Proof. exact C20_bound_reachable_full_thm. Qed.
+Print Assumptions C20_bound_reachable_full.
 
 Theorem C20_no_commit_when_cut_partial : forall c g0 L n0 K evs g,
   (0 <= period c)%Z ->
